@@ -592,6 +592,58 @@ let cmd_sod (a : sx list) : string =
        | _ -> "(bad-schema)")
   | _ -> failwith "sod: arguments"
 
+(* own OP... : the handle machine and the freeze trace of coq/model/Ownership.v (property C10)
+   OP ::= (build D SCHEMA) | (freeze S D) | (parse D LEN) | (move S D) | (arc S D) | (clone S D) | (drop S)
+        | (open D LEN ok|before|after) | (read S OK BREAKS) | (borrow S D) | (use S)
+   prints one token per op: ok | err | rejected | FAULT, followed by `!live` if live_okb fails in the
+   intermediate or final state, and for freeze `!trace` if the event trace violates the checked memory
+   and `!freeze-model` if the outcome differs from Freeze.freeze_built (the full model of freeze) *)
+let cmd_own (a : sx list) : string =
+  let open Ownership in
+  let nat s = nat_of_int (int_of_string (atom s)) in
+  let graphs : (int, mnode list) Hashtbl.t = Hashtbl.create 8 in
+  let st = ref st0 in
+  let out = Buffer.create 256 in
+  L.iter (fun o ->
+    let extra = ref "" in
+    let op = (match head o with
+      | ("build", [d; sch]) ->
+          let g = sx_schema_mut sch in
+          Hashtbl.replace graphs (int_of_string (atom d)) g;
+          OpBuild (nat d, L.map shape g)
+      | ("freeze", [s; d]) ->
+          let g = (try Hashtbl.find graphs (int_of_string (atom s)) with Not_found -> []) in
+          let pre_ok = (match CanonicalForm.fingerprint fuel_big g, SchemaJson.schema_json fuel_big g with
+                        | Ok _, Ok _ -> true | _ -> false) in
+          let (okf, tr) = freeze_run pre_ok (L.map shape g) in
+          (match exec_trace fm0 tr with None -> extra := !extra ^ "!trace" | Some _ -> ());
+          (if g <> [] then
+            (match Freeze.freeze_built fuel_big g with
+             | Ok _ -> if not okf then extra := !extra ^ "!freeze-model"
+             | Err _ -> if okf then extra := !extra ^ "!freeze-model"
+             | _ -> extra := !extra ^ "!freeze-model-fuel"));
+          OpFreeze (nat s, nat d, pre_ok)
+      | ("parse", [d; len]) -> OpParse (nat d, nat len)
+      | ("move", [s; d]) ->
+          (match Hashtbl.find_opt graphs (int_of_string (atom s)) with
+           | Some g -> Hashtbl.replace graphs (int_of_string (atom d)) g | None -> ());
+          OpMove (nat s, nat d)
+      | ("arc", [s; d]) -> OpIntoArc (nat s, nat d)
+      | ("clone", [s; d]) -> OpClone (nat s, nat d)
+      | ("drop", [s]) -> OpDrop (nat s)
+      | ("open", [d; len; f]) ->
+          OpOpen (nat d, nat len, (match atom f with "ok" -> OpenOk | "before" -> OpenFailBeforeSchema
+                                                    | "after" -> OpenFailAfterSchema | _ -> failwith "open mode"))
+      | ("read", [s; ok; br]) -> OpRead (nat s, atom ok = "1", atom br = "1")
+      | ("borrow", [s; d]) -> OpBorrow (nat s, nat d)
+      | ("use", [s]) -> OpUse (nat s)
+      | (h, _) -> failwith ("own: unknown op " ^ h)) in
+    let ((oc, mid), fin) = step !st op in
+    if not (live_okb mid && live_okb fin) then extra := !extra ^ "!live";
+    st := fin;
+    Buffer.add_string out (" " ^ (match oc with Done true -> "ok" | Done false -> "err" | Rejected -> "rejected" | Fault -> "FAULT") ^ !extra)) a;
+  "(own" ^ Buffer.contents out ^ ")"
+
 let run_case (line : string) : string =
   try
     match parse_many line with
@@ -611,6 +663,7 @@ let run_case (line : string) : string =
          | "sos" -> cmd_sos args
          | "sod" -> cmd_sod args
          | "freeze" -> cmd_freeze args
+         | "own" -> cmd_own args
          | _ -> failwith ("unknown command " ^ cmd))
     | _ -> "(bad-case)"
   with
